@@ -139,17 +139,17 @@ func (sm *stateMachine) executeAction(t *T) bool {
 }
 
 func runAction(t *T, action func(*T)) (invalid bool, skipped bool) {
-	defer func(draws int) {
+	defer func(started int) {
 		if r := recover(); r != nil {
 			if _, ok := r.(invalidData); ok {
 				t.failOnError() // an action that has already failed is not merely inapplicable
 				invalid = true
-				skipped = t.draws == draws
+				skipped = t.started == started // a draw that was begun and gave up has consumed bits as well
 			} else {
 				panic(r)
 			}
 		}
-	}(t.draws)
+	}(t.started)
 
 	action(t)
 	t.failOnError()
